@@ -304,6 +304,112 @@ def rule_restore(rep, funcs):
                    sample=(hyp(f) == "TRIDIMENSIONAL"))
 
 
+# ------------------------------------------------------ epoch agreement
+def rule_epoch(rep, funcs):
+    """EPOCH-AGREEMENT: in the strain-measure wrappers every local belongs to the beginning (0) or to the end (1) of the time step, by where
+    its value comes from or which pointer of the behaviour data is redirected to it: copy::exe(d.s0.x, L.begin()) / d.s1.x = L.begin() /
+    construction or assignment from locals of a single epoch.  A member call on a handler of one epoch never takes an argument of the
+    other epoch (the end-of-step tangent moduli are converted with the end-of-step eigen-decomposition, and so on)."""
+    for f in funcs:
+        if f.qname not in WRAPPERS or f.d.get("isLambda"):
+            continue
+        epoch = {}          # declId -> 0 / 1 / None (mixed)
+        names = {}
+
+        def ep_of_expr(sid):
+            """set of epochs mentioned by an expression (paths d.s0.* / d.s1.* and locals with a known epoch)."""
+            out = set()
+            for x in f.walk(sid):
+                m = f.stmts[x]
+                if m["k"] == "MemberExpr":
+                    p = f.path(x) or ""
+                    if p.startswith("d.s0."):
+                        out.add(0)
+                    elif p.startswith("d.s1."):
+                        out.add(1)
+                elif m["k"] == "DeclRefExpr" and m.get("local") and epoch.get(m.get("declId")) is not None:
+                    out.add(epoch[m["declId"]])
+            return out
+
+        def local_of(sid):
+            """the local object an expression designates: L, L.begin(), &L[0]"""
+            s_ = f.strip(sid)
+            n_ = f.stmts.get(s_)
+            while n_ is not None and n_["k"] in ("CXXMemberCallExpr", "MemberExpr", "UnaryOperator", "ArraySubscriptExpr", "CXXOperatorCallExpr") and f.kids(s_):
+                nxt = n_.get("obj") if n_["k"] == "CXXMemberCallExpr" and n_.get("obj") is not None else f.kids(s_)[0]
+                if n_["k"] == "CXXOperatorCallExpr" and n_.get("args"):
+                    nxt = n_["args"][0]
+                s_ = f.strip(nxt)
+                n_ = f.stmts.get(s_)
+            if n_ is not None and n_["k"] == "DeclRefExpr" and n_.get("local") and not n_.get("parm"):
+                names[n_["declId"]] = n_["name"]
+                return n_["declId"]
+            return None
+
+        def setep(did, eps):
+            if did is None or not eps:
+                return False
+            e = eps.pop() if len(eps) == 1 else None
+            if did in epoch and epoch[did] != e:
+                e = None if epoch[did] is None or e is None or epoch[did] != e else e
+            if epoch.get(did, "unset") != e:
+                epoch[did] = e
+                return True
+            return False
+        order = sorted(f.stmts)
+        for _ in range(4):
+            changed = False
+            for sid in order:
+                n = f.stmts[sid]
+                if n["k"] == "CallExpr" and re.search(r"copy<.*>::exe$", (n.get("callee") or "").split("(")[0]) and len(n.get("args") or []) == 2:
+                    changed |= setep(local_of(n["args"][1]), ep_of_expr(n["args"][0]))
+                bo = f.binop(sid)
+                if bo and bo[0] == "=":
+                    p = f.path(bo[1]) or ""
+                    if p.startswith("d.s0.") or p.startswith("d.s1."):
+                        did = local_of(bo[2])
+                        if did is not None:
+                            changed |= setep(did, {0 if p.startswith("d.s0.") else 1})
+                    else:
+                        did = local_of(bo[1]) if f.stmts[f.strip(bo[1])]["k"] == "DeclRefExpr" else None
+                        if did is not None:
+                            changed |= setep(did, ep_of_expr(bo[2]))
+                if n["k"] == "DeclStmt":
+                    for dd in n["decls"]:
+                        if "init" in dd and not (dd.get("type") or "").endswith("*const") and "*" not in (dd.get("type") or ""):
+                            names[dd["declId"]] = dd["name"]
+                            changed |= setep(dd["declId"], ep_of_expr(dd["init"]))
+            if not changed:
+                break
+        rep.count("wrappers examined for epoch agreement")
+        nl = sum(1 for v in epoch.values() if v is not None)
+        rep.count("locals with a single epoch", nl)
+        bad = []
+        ncalls = 0
+        for sid, n in f.stmts.items():
+            if n["k"] != "CXXMemberCallExpr" or n.get("obj") is None:
+                continue
+            o = f.stmts.get(f.strip(n["obj"]))
+            if o is None or o["k"] != "DeclRefExpr" or epoch.get(o.get("declId")) is None or "Handler" not in (o.get("declType") or ""):
+                continue
+            ncalls += 1
+            for a in n.get("args") or []:
+                an = f.stmts.get(f.strip(a))
+                if an is not None and an["k"] == "DeclRefExpr" and epoch.get(an.get("declId")) is not None and epoch[an["declId"]] != epoch[o["declId"]]:
+                    bad.append((sid, o["name"], epoch[o["declId"]], an["name"], epoch[an["declId"]], last(n.get("callee"))))
+        rep.count("handler calls examined for epoch agreement", ncalls)
+        if bad:
+            for sid, on, oe, an, ae, cal in bad:
+                key = "EPOCH-AGREEMENT@%s#%s.%s(%s)" % (f.qname, on, cal, an)
+                if not any(v["key"] == key for v in rep.violations):
+                    rep.fail(key, "%s: %s calls %s.%s with '%s': '%s' is built from the %s of the time step and '%s' holds a value of its %s - "
+                             "the sibling branches pair handler and argument of the same epoch; the converted quantity is not the one "
+                             "requested [%s]" % (rel(f.short_loc(sid)), f.qname, on, cal, an, on, ("beginning", "end")[oe], an, ("beginning", "end")[ae], hyp(f)))
+        elif ncalls:
+            rep.ok("%s: every handler call pairs a handler and arguments of the same epoch (%d calls, %d classified locals) [%s]"
+                   % (f.qname, ncalls, nl, hyp(f)), sample=(hyp(f) == "TRIDIMENSIONAL"))
+
+
 # ------------------------------------------------ write-back only on success
 INPUT_PATHS = ("d.s1.gradients", "d.s1.material_properties", "d.s1.external_state_variables", "d.s1.mass_density")
 MUTABLE_VIEW = re.compile(r"(^|::)(?!Const)\w*View(<|$)")
